@@ -6,6 +6,7 @@ mod macros;
 mod bls;
 mod elems;
 mod fields;
+mod g16;
 mod r1;
 mod util;
 
@@ -21,6 +22,7 @@ fn main() {
     elems::reg(&mut m);
     r1::reg(&mut m);
     bls::reg(&mut m);
+    g16::reg(&mut m);
 
     let argv: Vec<String> = std::env::args().collect();
     let mut out = std::io::stdout();
